@@ -140,6 +140,7 @@ func e1EvalBoxInner(x []byte, p e1Props) (fails []e1Fail, accepted bool, box mp4
 	// "accepted" = the decoder returned a box for exactly this byte string
 	accepted = accSR
 	var encSR []byte
+	var eerrC02 error
 	if okSR && errSR == nil && bSR != nil {
 		// C04: Info and Encode of whatever was decoded
 		guarded("Info", len(x), &fails, func() { _ = boxInfo(bSR, "") })
@@ -165,6 +166,10 @@ func e1EvalBoxInner(x []byte, p e1Props) (fails []e1Fail, accepted bool, box mp4
 		if !encOK || !swOK {
 			return fails, accepted, nil, nil
 		}
+		eerrC02 = eerr
+		if !accSR && eerr != nil {
+			encSR = nil
+		}
 		if p.C03 && accSR {
 			if (eerr == nil) != (swErr == nil) {
 				fails = append(fails, e1Fail{"C03", "Encode/EncodeSW error disagreement " + bSR.Type(), "Encode and EncodeSW both succeed or both fail", fmt.Sprint(eerr, " / ", swErr)})
@@ -178,6 +183,15 @@ func e1EvalBoxInner(x []byte, p e1Props) (fails []e1Fail, accepted bool, box mp4
 			}
 			encSR = nil
 		}
+	}
+	if !accSR && p.C02 && okSR && errSR == nil && bSR != nil && encSR != nil {
+		// C02 does not depend on the input being canonical: whatever structure the decoder returned, Size() must be
+		// what Encode writes (a structure whose Size() differs from the length it was decoded from is judged here)
+		fails = append(fails, c02Tree(bSR, encSR)...)
+	}
+	if !accSR && p.C02 && okSR && errSR == nil && bSR != nil && encSR == nil && eerrC02 != nil && strings.Contains(eerrC02.Error(), "overflow in SliceWriter") {
+		// Encode allocates exactly Size() bytes: running out of them is Size() < bytes written
+		fails = append(fails, e1Fail{"C02", "Encode needs more than Size() bytes " + bSR.Type(), "bytes written by Encode equal Size()", fmt.Sprintf("Size %d for a structure decoded from %d bytes: %v", safeSize(bSR), len(x), eerrC02)})
 	}
 	if !accSR {
 		// C03 symmetric direction: fixed point of the reader path must be accepted by the SR path
